@@ -36,6 +36,8 @@ func readReplay(path string) []map[string]interface{} {
 
 func jsonInt(v interface{}) int64 {
 	switch x := v.(type) {
+	case nil:
+		return 0
 	case json.Number:
 		i, err := x.Int64()
 		if err != nil {
